@@ -331,6 +331,104 @@ fn end_to_end(seed: u64, shard: u64, n: u64) -> Tally {
     t
 }
 
+/// The canonical query of a request whose parameters arrive in a folded form body: the body's bytes are data from the first
+/// one on — a name that begins with EF BB BF (U+FEFF), with a zero-width space, with C2 A0, written raw or escaped, first in
+/// the body or later — and the listing is the same whichever way it was spelled.
+fn folded_forms(seed: u64, shard: u64, n: u64) -> Tally {
+    let mut t = Tally::new();
+    let leads: [&[u8]; 5] = [b"\xef\xbb\xbf", b"\xe2\x80\x8b", b"\xc2\xa0", b"\xef\xbf\xbe", b"\xe2\x81\xa0"];
+    for i in 0..n {
+        let mut r = Rng::keyed(seed, "C10", "folded", shard, i);
+        let mut cfg = gen_cfg(&mut r);
+        cfg.fold = true;
+        cfg.s3 = r.chance(1, 4);
+        let o = GenOpts {
+            max_pairs: 4,
+            max_extra_headers: 1,
+            allow_form: false,
+            other_carrier_decoys: false,
+            ..Default::default()
+        };
+        let mut l = gen_logical(&mut r, &cfg, &o);
+        l.method = "POST".into();
+        l.body.clear();
+        l.form_pairs = None;
+        l.content_type = Some(r.pick_bytes(&[b"application/x-www-form-urlencoded", b"application/x-www-form-urlencoded; charset=utf-8", b"application/x-www-form-urlencoded;charset=UTF-8"]).to_vec());
+        let present = crate::gen::present_header_names(&l);
+        l.signed.retain(|s| present.contains(s));
+        // the body, written by hand: 1–4 pairs of letters and digits, one name led by a special sequence
+        let npairs = 1 + r.usize_below(4);
+        let at = r.usize_below(npairs);
+        let lead = *r.pick(&leads);
+        let raw = r.chance(2, 3);
+        let mut body: Vec<u8> = Vec::new();
+        for k in 0..npairs {
+            if k > 0 {
+                body.push(b'&');
+            }
+            if k == at {
+                if raw {
+                    body.extend_from_slice(lead);
+                } else {
+                    for b in lead {
+                        body.extend_from_slice(format!("%{:02X}", b).as_bytes());
+                    }
+                }
+            }
+            let nl = 1 + r.usize_below(6);
+            body.extend_from_slice(r.string_from("ActionVersio0123", nl).as_bytes());
+            body.push(b'=');
+            let vl = r.usize_below(6);
+            body.extend_from_slice(r.string_from("ListUsers2010", vl).as_bytes());
+        }
+        let ov = Overrides {
+            body_override: Some(body.clone()),
+            ..Default::default()
+        };
+        let mut sr = Rng::keyed(seed, "C10", "folded-spell", shard, i);
+        let mut sp = Speller {
+            r: &mut sr,
+            level: 0,
+        };
+        cfg.now = l.t;
+        let Some(wire) = crate::gen::render_signed_as_received(&l, &cfg, &mut sp, &ov) else {
+            t.count("folded_not_renderable");
+            continue;
+        };
+        let case = crate::model::Case {
+            wire,
+            cfg: cfg.clone(),
+            script: crate::model::Script::derive(&l.secret),
+        };
+        let rec = execute(&case);
+        t.eval();
+        if matches!(rec.outcome, Outcome::NotBuilt(_)) {
+            t.count("not_built_by_http");
+            continue;
+        }
+        let Some(j) = judge(&case, &rec) else {
+            continue;
+        };
+        match &j.agreement {
+            Agreement::Agree if rec.outcome.is_ok() => {
+                t.count(if at == 0 && raw {
+                    "folded_first_name_led_raw_accepted"
+                } else {
+                    "folded_led_name_elsewhere_or_escaped_accepted"
+                });
+                t.nontrivial(case.hash());
+            }
+            Agreement::Agree => t.count("folded_other"),
+            Agreement::Silent(w) => t.count(&format!("silent: {}", w)),
+            Agreement::Mismatch {
+                detail,
+                known,
+            } => t.violate(violation("query-e2e", "folded-form", format!("folded form body {:?}: {}", crate::json::show_bytes(&body), detail), &case, *known)),
+        }
+    }
+    t
+}
+
 pub fn run(tier: Tier) -> i32 {
     let mut ctx = Ctx::new("C10", tier);
     let pre = preflight();
@@ -353,6 +451,8 @@ pub fn run(tier: Tier) -> i32 {
     });
     let e2e = ctx.par(16, |s| end_to_end(seed, s, tier.n(4000, 150_000)));
     tally.merge(e2e);
+    let ff = ctx.par(8, |s| folded_forms(seed, s, tier.n(500, 20_000)));
+    tally.merge(ff);
     // fresh processes (different HashMap seeds): the same corpus must canonicalise / validate identically
     let procs = tier.n(8, 32);
     let n_corpus = tier.n(4000, 20_000);
@@ -396,6 +496,8 @@ pub fn run(tier: Tier) -> i32 {
     if !DIRECT {
         tally.inconclusive.push("direct-drive sub-workloads skipped: the crate's unstable API is not available in this build".into());
     }
+    ctx.gate("folded form bodies whose first name begins with raw EF BB BF / a zero-width or no-break space, accepted with every byte listed", tally.get("folded_first_name_led_raw_accepted"), tier.n(300, 12_000));
+    ctx.gate("folded form bodies with such a name later in the body or escaped, accepted", tally.get("folded_led_name_elsewhere_or_escaped_accepted"), tier.n(1000, 40_000));
     ctx.gate("prefix-related cases (direct)", tally.get("prefix_related_cases"), tier.n(5000, 100_000));
     ctx.gate("duplicate-name cases (direct)", tally.get("duplicate_name_cases"), tier.n(5000, 100_000));
     ctx.gate("byte values escaped in name and value positions", tally.get("agree/byte-escaped"), 1024);
@@ -409,7 +511,7 @@ pub fn run(tier: Tier) -> i32 {
     ctx.exhaustive("all 256 byte values as %XX / %xx in name and value positions; all ASCII bytes literally", DIRECT);
     let rep = Report {
         level: "exploration",
-        rule: "Direct calls of query_string_to_normalized_map + canonicalize_query_to_string (crate's `unstable` feature): byte tables, structural corner cases, random queries of 0–40 parameters dense in names that are proper prefixes of other names followed by bytes below '=', repeated names, empty names/values, '+', '%2B', several '=', '&&', the X-Amz-Signature name and its near misses; oracles: reference canonical query over decoded pairs (sorted by encoded name, then value), invariance under permutation and under re-spelling (independent of the reference), MalformedQueryString/400 for bad escapes. A fixed corpus is canonicalised (and a reference-signed corpus validated through the stable API) in fresh processes whose HashMap seeds differ; digests must agree. End-to-end: reference-signed many-parameter requests on both carriers must be accepted. Distinct = distinct query strings / cases decided in agreement with the reference.".into(),
+        rule: "Direct calls of query_string_to_normalized_map + canonicalize_query_to_string (crate's `unstable` feature): byte tables, structural corner cases, random queries of 0–40 parameters dense in names that are proper prefixes of other names followed by bytes below '=', repeated names, empty names/values, '+', '%2B', several '=', '&&', the X-Amz-Signature name and its near misses; oracles: reference canonical query over decoded pairs (sorted by encoded name, then value), invariance under permutation and under re-spelling (independent of the reference), MalformedQueryString/400 for bad escapes. A fixed corpus is canonicalised (and a reference-signed corpus validated through the stable API) in fresh processes whose HashMap seeds differ; digests must agree. End-to-end: reference-signed many-parameter requests on both carriers must be accepted. Plus folded form bodies written by hand (1–4 pairs, one name led by EF BB BF, a zero-width space, a no-break space, U+FFFE or a word joiner — raw or escaped, first in the body or later), signed as received: every byte of the body is parameter data. Distinct = distinct query strings / cases decided in agreement with the reference.".into(),
         assumptions: vec!["queries are UTF-8 strings as http::Uri delivers them".into()],
         extra: J::obj().set("calibrated_vectors", J::i(pre.unwrap_or(0) as i64)).set("direct_drive", J::Bool(DIRECT)).set("corpus_digest", J::s(here.clone())),
     };
